@@ -2,358 +2,53 @@ package main
 
 import (
 	"fmt"
-	"strings"
-
-	"golang.org/x/tools/go/ssa"
 )
 
 func init() {
 	register(&propDef{
 		id: "C17", run: runC17, minOblig: 12,
-		explanation: "Decides structural clauses of the bcrypt property. (key) the key handed to blowfish.NewSaltedCipher and to every ExpandKey round in expensiveBlowfishSetup is append(key[:len(key):len(key)], 0) where key is the unmodified password parameter: the whole password followed by one NUL byte, copied (3-index slice) so the caller's array is not written; bcrypt passes its password parameter through unchanged, and GenerateFromPassword refuses passwords longer than 72 bytes before hashing (evaluated for lengths 0..80); the cost loop runs 1<<cost times with both ExpandKey(key) and ExpandKey(salt) per round. (verification) CompareHashAndPassword returns nil only on the ConstantTimeCompare(...) == 1 edge, both operands are complete re-encoded hashes (Hash()) that share the parsed salt, cost and version while the hash bytes come from the stored and from the freshly computed value respectively; every other path returns a non-nil error. (malformed hashes) in newFromHash / decodeVersion / decodeCost every constant index and constant slice bound stays below the length established by the minHashSize test (running offsets 3-4, +3, +22 evaluated for every input length 0..70 and both version forms); checkCost's range test guards the stored cost; Hash() writes within its 60-byte array for both version forms. NOT decided: Blowfish/EksBlowfish values, base64 alphabet values, interoperability with other implementations.",
+		explanation: "Decides structural clauses of the bcrypt property by interpreting the code, whatever its factoring. (key) the functions of package bcrypt that reach blowfish.NewSaltedCipher are found by call structure; each of them that takes password, cost and salt is interpreted with a byte-content model (make / append / copy / clear / element stores and loads, bytes.Clone, slices.Clone / Concat / Clip / Grow, helpers of the package inlined) for 31 password lengths 0..300: the key handed to NewSaltedCipher and to the first ExpandKey of every round is a buffer allocated during the call that holds every password byte in order followed by exactly one NUL, the caller's array is never written, the salt handed to NewSaltedCipher and to the second ExpandKey of every round is computed from the complete salt parameter (plus constant padding) and nothing else, and the rounds number exactly 1<<cost for cost 0..12 (interpreted to the end); for cost 13..31 the loop is followed for 4097 rounds, must still be running and, where its exit comparison evaluates, must be set up for 1<<cost rounds. Which parameter is password / salt / cost is read off what the code does with them; a branch on password content leaves the rule undecided. Every other function between GenerateFromPassword (parameter 0) / CompareHashAndPassword (parameter 1) and that core hands its password parameter on unchanged (argument identity); GenerateFromPassword, interpreted for lengths 0..80 and costs around the limits, reaches the hashing core exactly for lengths <= 72 and costs <= MaxCost. (verification) CompareHashAndPassword returns nil only behind ConstantTimeCompare(...) == 1 — directly, or through a bool / error helper of the package whose positive result lies behind that edge; the one comparison on the path has two complete re-encoded hashes (Hash()) as operands, one of the parsed stored record and one of a record whose hash field is the result of the hashing core applied to (candidate password, stored cost, stored salt) and whose other fields are the stored ones (set field by field, or by copying the stored record). (malformed hashes) the parser (the function CompareHashAndPassword and Cost hand the hash string to), interpreted with its helpers inlined on concrete strings — every length 0..58, for lengths 59..80 all combinations of prefix byte, major version, version form ($2$, $2a$, $2b$, $2y$) and cost digits around the limits, and all costs 00..99 — never lets an index or slice bound leave its operand, refuses too-short input before examining a byte, returns an error exactly for a wrong prefix, a newer major version, non-numeric or out-of-range cost, stores the cost / major / minor written in the string (offsets 3 / 4) and copies out exactly the 22 salt characters after the cost field and everything after them; checkCost, where it is a function of its own, accepts exactly MinCost..MaxCost (<= 31); Hash(), interpreted for the version forms, salt lengths 22 / 24 and hash lengths 0..40, keeps every index and slice bound inside its array and returns 59 / 60 bytes where the length evaluates. NOT decided: Blowfish/EksBlowfish values, base64 alphabet and decoding, interoperability with other implementations on concrete values.",
 		assumptions: []string{"crypto/subtle.ConstantTimeCompare contract", "blowfish key schedule consumes the key cyclically (C12)"},
 	})
-	tech("C17", "argument-provenance rule (key = password || 0 from the unmodified parameter), must-cross CFG rule on the constant-time comparison, finite-domain evaluation of parser offsets over all short input lengths")
+	tech("C17", "flow-sensitive abstract interpretation (pathWalker) with a persistent byte-content model of buffers (key = password || 0 in a private buffer, salt provenance, round count), role discovery by call structure and argument provenance, interprocedural must-cross rule on the constant-time comparison, interpretation of the hash-string parser and of Hash() over concrete strings / lengths")
 }
 
 func runC17(c *Ctx) {
-	// --- key construction
-	if f := c.fn("bcrypt", "expensiveBlowfishSetup"); f != nil {
-		key := f.Params[0]
-		isKeyNul := func(v ssa.Value) bool {
-			ap, ok := v.(*ssa.Call)
-			if !ok || calleeName(&ap.Call) != "builtin:append" || len(ap.Call.Args) != 2 {
-				return false
-			}
-			sl, ok := ap.Call.Args[0].(*ssa.Slice)
-			if !ok || sl.X != ssa.Value(key) || sl.Low != nil {
-				return false
-			}
-			// high and max are len(key)
-			isLenKey := func(x ssa.Value) bool {
-				cl, ok := x.(*ssa.Call)
-				return ok && calleeName(&cl.Call) == "builtin:len" && cl.Call.Args[0] == ssa.Value(key)
-			}
-			if sl.High == nil || sl.Max == nil || !isLenKey(sl.High) || !isLenKey(sl.Max) {
-				return false
-			}
-			// appended element: a single 0 byte
-			s, ok := sliceLiteralString(ap.Call.Args[1])
-			return ok && s == "\x00"
-		}
-		nsc := callsNamed(f, "blowfish.NewSaltedCipher")
-		ok := len(nsc) == 1 && isKeyNul(nsc[0].Common().Args[0])
-		c.check(ok, "C17.key", "NewSaltedCipher key", f, "key = append(password[:len:len], 0): the entire password followed by NUL, on a private copy", "the Blowfish key is not the entire unmodified password followed by a single NUL byte (or it aliases the caller's array)")
-		ek := callsNamed(f, "blowfish.ExpandKey")
-		nKey, nSalt := 0, 0
-		var saltV ssa.Value
-		if len(nsc) == 1 {
-			saltV = nsc[0].Common().Args[1]
-		}
-		sameLoop := true
-		for _, ci := range ek {
-			a := ci.Common().Args[0]
-			switch {
-			case isKeyNul(a):
-				nKey++
-			case a == saltV:
-				nSalt++
-			}
-			if innermostLoopHeader(ci.Block()) == nil {
-				sameLoop = false
-			}
-		}
-		c.check(len(ek) == 2 && nKey == 1 && nSalt == 1 && sameLoop, "C17.key", "cost loop body", f, "each round expands with password||NUL and then with the decoded salt", "a cost round does not run ExpandKey(password||NUL) and ExpandKey(salt)")
-		// rounds = 1 << cost, loop i < rounds
-		okRounds := false
-		allInstrs(f, func(in ssa.Instruction) {
-			if bo, ok := in.(*ssa.BinOp); ok && bo.Op.String() == "<<" {
-				if k, isK := constInt(bo.X); isK && k == 1 && stripConv(bo.Y) == ssa.Value(f.Params[1]) {
-					okRounds = true
-				}
-			}
-		})
-		c.check(okRounds, "C17.key", "round count", f, "rounds = 1 << cost", "the number of key-expansion rounds is not 1 << cost")
-	}
-	if f := c.fn("bcrypt", "bcrypt"); f != nil {
-		cs := callsNamed(f, "bcrypt.expensiveBlowfishSetup")
-		ok := len(cs) == 1 && cs[0].Common().Args[0] == ssa.Value(f.Params[0]) && stripConv(cs[0].Common().Args[1]) == ssa.Value(f.Params[1]) && cs[0].Common().Args[2] == ssa.Value(f.Params[2])
-		c.check(ok, "C17.key", "bcrypt -> expensiveBlowfishSetup", f, "password, cost and salt are passed through unchanged", "bcrypt alters the password, cost or salt before the key setup")
-	}
-	if f := c.fn("bcrypt", "GenerateFromPassword"); f != nil {
-		bad := ""
-		for n := int64(0); n <= 80; n++ {
-			e := newEnv()
-			e.bindLen(f, f.Params[0], n)
-			_, _, blocks := e.reachableExits(f, nil)
-			reached := false
-			for _, ci := range callsNamed(f, "bcrypt.newFromPassword") {
-				if blocks[ci.Block()] {
-					reached = true
-				}
-			}
-			if reached != (n <= 72) {
-				bad = fmt.Sprintf("a password of %d bytes is %s", n, map[bool]string{true: "hashed (silently truncated by the key schedule)", false: "refused"}[reached])
-				break
-			}
-		}
-		c.check(bad == "", "C17.key", "GenerateFromPassword length limit", f, "lengths 0..72 are hashed, 73..80 refused", bad)
-		for _, ci := range callsNamed(f, "bcrypt.newFromPassword") {
-			c.check(ci.Common().Args[0] == ssa.Value(f.Params[0]), "C17.key", "GenerateFromPassword -> newFromPassword", f, "the password is passed through unchanged", "the password is altered before hashing")
-		}
-	}
-	// --- verification
-	if f := c.fn("bcrypt", "CompareHashAndPassword"); f != nil {
-		ctc := callsNamed(f, "crypto/subtle.ConstantTimeCompare")
-		ok := len(ctc) == 1
-		if ok {
-			pass := edgesImplying(ctc[0].(*ssa.Call), []int64{0, 1}, func(d int64) bool { return d == 1 })
-			cut := edgeSet{}
-			cut.addAll(pass)
-			for _, r := range returnsOf(f) {
-				if errNilness(retVal(r, 0), r.Block(), 0) != neverNil {
-					if len(pass) == 0 || pathFromEntry(r, cut) {
-						ok = false
-					}
-				}
-			}
-		}
-		c.check(ok, "C17.compare", "nil only after the constant-time match", f, "every return that may be nil lies behind ConstantTimeCompare(...) == 1", "CompareHashAndPassword can return nil without the constant-time comparison having matched")
-		if len(ctc) == 1 {
-			a := ctc[0].Common().Args
-			isHash := func(v ssa.Value) (ssa.Value, bool) {
-				cl, ok := v.(*ssa.Call)
-				if !ok || !strings.HasSuffix(short(calleeName(&cl.Call)), "bcrypt.hashed).Hash") {
-					return nil, false
-				}
-				return cl.Call.Args[0], true
-			}
-			r0, ok0 := isHash(a[0])
-			r1, ok1 := isHash(a[1])
-			okOps := ok0 && ok1 && r0 != r1
-			if okOps {
-				// one receiver is the parsed hash (result of newFromHash), the other a struct built from the computed hash and the parsed salt/cost/version
-				var parsed, other ssa.Value
-				for _, r := range []ssa.Value{r0, r1} {
-					if ex, isE := r.(*ssa.Extract); isE {
-						if cl, isC := ex.Tuple.(*ssa.Call); isC && short(calleeName(&cl.Call)) == "bcrypt.newFromHash" {
-							parsed = r
-							continue
-						}
-					}
-					other = r
-				}
-				okOps = parsed != nil && other != nil
-				if okOps {
-					lf := litFields(other)
-					hv, hasH := lf["hash"]
-					okOps = hasH
-					if hasH {
-						ex, isE := hv.(*ssa.Extract)
-						okOps = isE && ex.Index == 0
-						if okOps {
-							cl, isC := ex.Tuple.(*ssa.Call)
-							okOps = isC && short(calleeName(&cl.Call)) == "bcrypt.bcrypt" && cl.Call.Args[0] == ssa.Value(f.Params[1])
-						}
-					}
-					for _, fld := range []string{"salt", "cost", "major", "minor"} {
-						v, has := lf[fld]
-						if !has {
-							okOps = false
-							continue
-						}
-						_, fn, base, isF := fieldOf(v)
-						if !isF || fn != fld || base != parsed {
-							okOps = false
-						}
-					}
-				}
-			}
-			c.check(okOps, "C17.compare", "compared values", ctc[0], "stored hash re-encoded vs bcrypt(candidate password, stored cost, stored salt) re-encoded with the stored version", "the comparison is not between the stored hash and the hash of the candidate password under the stored salt, cost and version")
-		}
-	}
-	// --- malformed hashes
-	c17Parser(c)
+	// --- key construction (c17_key.go, c17_model.go)
+	hashers, roles := c17Key(c)
+	// --- verification (c17_compare.go)
+	c17Compare(c, hashers, roles)
+	// --- malformed hashes (c17_parse.go)
+	c17Parser(c, hashers)
+	c17CheckCost(c)
+	c17HashOffsets(c)
 }
 
-func c17Parser(c *Ctx) {
-	nf := c.fn("bcrypt", "newFromHash")
-	dv := c.fn("bcrypt", "(*hashed).decodeVersion")
-	dc := c.fn("bcrypt", "(*hashed).decodeCost")
-	if nf == nil || dv == nil || dc == nil {
+// c17CheckCost: when the range test is a function of its own, it is evaluated
+// for every cost -2..40. (The same fact is decided at the level of the parser
+// and of GenerateFromPassword by interpretation, whatever the factoring.)
+func c17CheckCost(c *Ctx) {
+	cc := c.fnOpt("bcrypt", "checkCost")
+	if cc == nil || len(cc.Params) != 1 {
 		return
 	}
-	minHash, ok := c.pkgConst("bcrypt", "minHashSize")
-	if !ok {
-		c.fail("C17.parser", "minHashSize", nf, "constant not found")
-		return
-	}
-	// needs of the two helpers as a function of what they return
-	need := func(f *ssa.Function) (maxIdx int64) {
-		p := f.Params[1]
-		allInstrs(f, func(in ssa.Instruction) {
-			switch x := in.(type) {
-			case *ssa.IndexAddr:
-				if x.X == ssa.Value(p) {
-					if k, ok := constInt(x.Index); ok && k+1 > maxIdx {
-						maxIdx = k + 1
-					}
-				}
-			case *ssa.Slice:
-				if x.X == ssa.Value(p) && x.High != nil {
-					if k, ok := constInt(x.High); ok && k > maxIdx {
-						maxIdx = k
-					}
-				}
-			}
-		})
-		return
-	}
-	retMax := func(f *ssa.Function) (m int64, allConst bool) {
-		allConst = true
-		for _, r := range returnsOf(f) {
-			if errNilness(retVal(r, 1), r.Block(), 0) == neverNil {
-				continue
-			}
-			for _, leaf := range phiLeaves(retVal(r, 0)) {
-				k, ok := newEnv().eval(leaf.val)
-				if !ok {
-					allConst = false
-					continue
-				}
-				if k > m {
-					m = k
-				}
-			}
-		}
-		return
-	}
-	needV, needC := need(dv), need(dc)
-	advV, okV := retMax(dv)
-	advC, okC := retMax(dc)
-	saltSz, _ := c.pkgConst("bcrypt", "encodedSaltSize")
-	// newFromHash slices hashedSecret[:encodedSaltSize] and [encodedSaltSize:] after the two advances
-	worst := advV + advC + saltSz
-	okAll := okV && okC && needV <= minHash && advV+needC <= minHash && worst <= minHash
-	c.check(okAll, "C17.parser", "offsets stay inside the minimum hash size", nf,
-		fmt.Sprintf("decodeVersion touches %d bytes and advances <= %d; decodeCost touches %d and advances %d; salt %d: worst offset %d <= minHashSize %d", needV, advV, needC, advC, saltSz, worst, minHash),
-		fmt.Sprintf("a hash string of minHashSize=%d bytes is too short for the parser: version needs %d (advance %d), cost needs %d (advance %d), salt %d", minHash, needV, advV, needC, advC, saltSz))
-	// the length test guards everything: for every length below minHashSize the helper calls are unreachable
+	minC, _ := c.pkgConst("bcrypt", "MinCost")
+	maxC, _ := c.pkgConst("bcrypt", "MaxCost")
 	bad := ""
-	for n := int64(0); n <= 70; n++ {
+	for v := int64(-2); v <= 40; v++ {
 		e := newEnv()
-		e.bindLen(nf, nf.Params[0], n)
-		_, _, blocks := e.reachableExits(nf, nil)
-		reached := false
-		for _, ci := range calls(nf, func(s string) bool { return strings.HasSuffix(s, "decodeVersion") }) {
-			if blocks[ci.Block()] {
-				reached = true
+		e.bind(cc.Params[0], v)
+		_, rets, _ := e.reachableExits(cc, nil)
+		accepted := false
+		for _, r := range rets {
+			if errNilness(retVal(r, 0), r.Block(), 0) != neverNil {
+				accepted = true
 			}
 		}
-		if reached != (n >= minHash) {
-			bad = fmt.Sprintf("input length %d: parsing %s", n, map[bool]string{true: "proceeds", false: "is refused"}[reached])
+		if accepted != (v >= minC && v <= maxC) {
+			bad = fmt.Sprintf("cost %d is %s", v, map[bool]string{true: "accepted", false: "rejected"}[accepted])
 			break
 		}
 	}
-	c.check(bad == "", "C17.parser", "length test precedes parsing", nf, "inputs shorter than minHashSize are refused before any byte is examined (0..70 evaluated)", bad)
-	// the slices in newFromHash use the advances returned by the helpers (data-flow identity)
-	okFlow := false
-	allInstrs(nf, func(in ssa.Instruction) {
-		if sl, ok := in.(*ssa.Slice); ok && sl.Low != nil {
-			if ex, isE := sl.Low.(*ssa.Extract); isE && ex.Index == 0 {
-				if cl, isC := ex.Tuple.(*ssa.Call); isC && strings.HasSuffix(calleeName(&cl.Call), "decodeVersion") {
-					okFlow = true
-				}
-			}
-		}
-	})
-	c.check(okFlow, "C17.parser", "version advance is the helper's result", nf, "hashedSecret[n:] uses the count returned by decodeVersion", "newFromHash does not advance by the count decodeVersion reports")
-	// decodeCost: checkCost result checked before the cost is stored
-	if cs := callsNamed(dc, "bcrypt.checkCost"); len(cs) == 1 {
-		y, _ := errSuccessEdges(cs[0].(*ssa.Call))
-		cut := edgeSet{}
-		cut.addAll(y)
-		ok := len(y) > 0
-		for _, st := range storesTo(dc, "hashed", "cost") {
-			if pathFromEntry(st, cut) {
-				ok = false
-			}
-		}
-		c.check(ok, "C17.parser", "cost range", dc, "the cost is stored only after checkCost accepted it", "an out-of-range cost can be stored (1<<cost rounds)")
-	} else {
-		c.fail("C17.parser", "cost range", dc, "checkCost call not found in decodeCost")
-	}
-	if cc := c.fn("bcrypt", "checkCost"); cc != nil {
-		minC, _ := c.pkgConst("bcrypt", "MinCost")
-		maxC, _ := c.pkgConst("bcrypt", "MaxCost")
-		bad := ""
-		for v := int64(-2); v <= 40; v++ {
-			e := newEnv()
-			e.bind(cc.Params[0], v)
-			_, rets, _ := e.reachableExits(cc, nil)
-			accepted := false
-			for _, r := range rets {
-				if errNilness(retVal(r, 0), r.Block(), 0) != neverNil {
-					accepted = true
-				}
-			}
-			if accepted != (v >= minC && v <= maxC) {
-				bad = fmt.Sprintf("cost %d is %s", v, map[bool]string{true: "accepted", false: "rejected"}[accepted])
-				break
-			}
-		}
-		c.check(bad == "" && maxC <= 31, "C17.parser", "checkCost range", cc, fmt.Sprintf("accepts exactly %d..%d", minC, maxC), bad)
-	}
-	// Hash(): running offset within the 60-byte array
-	if h := c.fn("bcrypt", "(*hashed).Hash"); h != nil {
-		// make([]byte, 60) with a constant length is lowered to new [60]byte + slice
-		var mk ssa.Value
-		var L int64
-		allInstrs(h, func(in ssa.Instruction) {
-			switch m := in.(type) {
-			case *ssa.MakeSlice:
-				if k, ok := constInt(m.Len); ok {
-					mk, L = m, k
-				}
-			case *ssa.Slice:
-				if al, ok := m.X.(*ssa.Alloc); ok && al.Comment == "makeslice" {
-					if k, ok := constInt(m.High); m.High != nil && ok {
-						mk, L = m, k
-					}
-				}
-			}
-		})
-		okH := mk != nil
-		if okH {
-			for _, minor := range []int64{0, 'a'} {
-				e := newEnv()
-				e.bindField(h, "hashed", "minor", minor)
-				e.solve(h)
-				allInstrs(h, func(in ssa.Instruction) {
-					if !e.reach[in.Block()] {
-						return
-					}
-					switch x := in.(type) {
-					case *ssa.IndexAddr:
-						if x.X == ssa.Value(mk) {
-							if k, ok := e.eval(x.Index); !ok || k >= L {
-								okH = false
-							}
-						}
-					case *ssa.Slice:
-						if x.X == ssa.Value(mk) {
-							for _, b := range []ssa.Value{x.Low, x.High} {
-								if b != nil {
-									if k, ok := e.eval(b); !ok || k > L {
-										okH = false
-									}
-								}
-							}
-						}
-					}
-				})
-			}
-		}
-		c.check(okH, "C17.parser", "Hash() offsets", h, "all indices and slice bounds evaluate within the 60-byte array for both version forms", "Hash() can index or slice beyond its array")
-	}
+	c.check(bad == "" && maxC <= 31, "C17.parser", "checkCost range", cc, fmt.Sprintf("accepts exactly %d..%d", minC, maxC), bad)
 }
